@@ -441,7 +441,7 @@ func trunc(s string, n int) string {
 // ---------------------------------------------------------------- runner
 
 // knownFn reports whether a key is treated as a known finding (known_findings.json
-// or C15_ASSUME_KNOWN); exclude counts a generator/oracle exclusion.
+// only); exclude counts a generator/oracle exclusion.
 type runner struct {
 	mode     string
 	path     string // txn | notxn
